@@ -291,6 +291,8 @@ class Trace:
         a = dict(a)
         a["G"] = G.real.astype(self.dtype) if self.real else G.astype(self.dtype)
         renorm = simple and a["mode"] == "renorm"
+        # the flag combination; the specification's RefOp says which operator it stands for, whatever the route
+        eop = a["op"]
         inplace = bool(a.get("inplace")) or simple
         tn0 = self.tn
         rec = {"ev": "apply" if self.exact else "rel", "entry": a["entry"], "mode": a["mode"],
@@ -299,7 +301,7 @@ class Trace:
                "ptags": str(a.get("ptags", "default")), "cutoff": "default" if a.get("cutoff") is None else str(a["cutoff"]),
                "variant": str(a.get("variant", "")), "renorm": bool(renorm), "dtype": self.dtype, "source": self.source,
                "exc": "", "psi": [], "ongrid": False, "psiq": [], "recv": [], "recv_checked": False, "qd": 0, "recvqd": 0,
-               "cls": g.cls, "k": len(a["pos"])}
+               "cls": g.cls, "k": len(a["pos"]), "effop": U.eff_op(eop)}
         out = None
         # an in-place call that raises half way may leave its receiver modified: the trace continues on a copy
         # taken before the call (what the receiver looks like after the failure is still observed and logged)
@@ -336,7 +338,7 @@ class Trace:
                     rec["recv_checked"] = True
                     rec["recv"] = sr or []
             else:
-                ref = U.ref_apply(a["G"], g.dims, list(a["pos"]), self.cur, a["op"], a["which"])
+                ref = U.ref_apply(a["G"], g.dims, list(a["pos"]), self.cur, eop, a["which"])
                 if v is None:
                     rec["qd"] = 999990
                     self.dead = True
@@ -547,7 +549,7 @@ def targeted_traces(rng, tid0, rounds):
                 if G is None:
                     break
                 a = dict(entry=e, mode="exact" if e == "gate_simple" else "reduce-split", pos=pos, which=which,
-                         op=rng.choice("NTH"), G=G)
+                         op=rng.choice("NTHB"), G=G)
                 a = decorate(rng, g, a)
                 a.pop("simple_contract", None)
                 if tr.step(a):
@@ -652,7 +654,7 @@ def ref_records(seed, n, tid0):
         D = int(np.prod(dims))
         v = U.gint(nprng, (D if kind == "vec" else D * D,), 2, 2)
         which = "site" if kind == "vec" else rng.choice(["upper", "lower", "sandwich"])
-        op = rng.choice("NTH")
+        op = rng.choice("NTHBC")
         out = U.ref_apply(G, dims, pos, v, op, which)
         recs.append({"ev": "ref", "tid": tid0 + i, "dims": dims, "sites": [p + 1 for p in pos], "G": gjson(G), "op": op,
                      "which": which, "psi": snap_vec(v, 1e-9), "out": snap_vec(out, 1e-9)})
@@ -672,9 +674,11 @@ def run(ctx):
     muts = [("MC_mut_noflip.cfg", "gate_with_auto_swap without flipping the gate for i > j"),
             ("MC_mut_nosort.cfg", "sub-MPO route without re-sorting the gate legs"),
             ("MC_mut_sandwich.cfg", "dagger sandwich without exchanging the two arrays"),
-            ("MC_mut_dagger.cfg", "'nonlocal' mode dropping dagger, as before fix 0665402c")]
+            ("MC_mut_dagger.cfg", "'nonlocal' mode dropping dagger, as before fix 0665402c"),
+            ("MC_mut_flags.cfg", "gate_inds flipping transpose under dagger instead of implying it (both flags -> conj G)"),
+            ("MC_mut_nonlocalxor.cfg", "'nonlocal' mode flipping transpose under dagger, as between 0665402c and 0a1463db")]
     if quick:
-        muts = muts[ctx.seed % 4:][:1]
+        muts = [muts[4], muts[ctx.seed % 4]]
     nsim = 140 if quick else 1500
 
     def main_mc():
@@ -791,6 +795,8 @@ def run(ctx):
                 fh.write(json.dumps(r, default=str) + "\n")
     fails = ctx.validate("C06_Trace", "Trace.cfg", recs, name="gates", ntraces=ntr, chunk=3000)
     rfails = ctx.validate("C06_Trace", "Trace.cfg", rrecs, name="refbinding", ntraces=len(rrecs))
+    if any(f["clause"] == "HarnessOpBinding" for f in fails):
+        raise MachineryError("the operator the driver used for its numpy reference (eff_op) disagrees with the specification's EffOp")
     if rfails:
         raise MachineryError("the numpy transcription of ApplyRef disagrees with the specification: %r" % (rfails[0]["record"],))
 
@@ -814,7 +820,7 @@ def run(ctx):
     ctx.extra["model_drift_notes"] = len(notes)
     ctx.clauses.update(["WellFormed", "WellPosed", "Returns", "OnGrid", "ValueExact", "ValueUpToScale", "ValueRel", "OuterSame",
                         "SiteTagsSame", "StructureKept", "ReceiverUnchanged", "ReceiverUnchangedRel", "RejectionClean",
-                        "RejectionCleanValue", "RefBinding", "model: RoutesAgree NamingKept RejectStutters TypeOK + facts of the reference"])
+                        "RejectionCleanValue", "RefBinding", "HarnessOpBinding", "model: RoutesAgree NamingKept RejectStutters TypeOK + facts of the reference"])
     ctx.assumptions += [
         "exact domain: Gaussian-integer tensors (|re|<=2, |im|<=1, bond 2) and gates; site dimensions in {2,3}; dense dimension <= 81 (states) / 256 (operators)",
         "cutoff=0 (or the library default 1e-10 for the gate-splitting modes with integer gates whose singular values are exactly zero or O(1)): no truncation",
